@@ -141,5 +141,35 @@ def plincomb (lc : LC K) : List Nat → List Nat → List Nat → K → K → Me
   | [], [], [], _, _, m => some m
   | _, _, _, _, _, _ => none
 
+/-! ## `LinearSpace.lincomb` argument checks (front end), in source order -/
+
+inductive FrontOutcome
+  | errOut        -- LinearSpaceTypeError: `out` not in the space
+  | errA          -- LinearSpaceTypeError: `a` not in the field
+  | errX1         -- LinearSpaceTypeError: `x1` not in the space
+  | errX2NoB      -- ValueError: `x2` provided but not `b`
+  | errB          -- LinearSpaceTypeError: `b` not in the field
+  | errX2         -- LinearSpaceTypeError: `x2` not in the space
+  | callOne       -- self._lincomb(a, x1, 0, x1, out)
+  | callTwo       -- self._lincomb(a, x1, b, x2, out)
+  deriving Repr, DecidableEq
+
+/-- The `if` chain of `LinearSpace.lincomb(a, x1, b=None, x2=None, out=None)` as written:
+`out` (when given) first, then `a`, `x1`, then the one-element form, then `b`, `x2`.
+`hasField = false` models `space.field is None` (the scalar membership tests are skipped). -/
+def lincombFront (hasField outGiven outIn aIn x1In bGiven x2Given bIn x2In : Bool) : FrontOutcome :=
+  if outGiven && !outIn then .errOut
+  else if hasField && !aIn then .errA
+  else if !x1In then .errX1
+  else if !bGiven then
+    if x2Given then .errX2NoB else .callOne
+  else if hasField && !bIn then .errB
+  else if !x2In then .errX2
+  else .callTwo
+
+def FrontOutcome.isError : FrontOutcome → Bool
+  | .callOne | .callTwo => false
+  | _ => true
+
 end
 end OdlModel.ElemOps
